@@ -129,6 +129,12 @@ def _order_ok(runs, lab, extra_ok=False):
     """extra_ok: the world lives one container level further down than the specification's universe (after a rebinding copy): the
     additional enclosing container legitimately triggers more tasks (they depend on it structurally), so a superset is accepted"""
     trig = lab.get("trig", [])
+    if lab.get("flat"):
+        # nested updates (Manager.tla FlatOrders): a task reached by the outer and by an inner update runs once in each; the observed list of runs
+        # must be one of the flat orders the specification lists
+        if list(runs) in [list(q) for q in lab["flat"]]:
+            return None, None
+        return ("set" if sorted(set(runs)) != sorted(set(lab["flat"][0])) else "order"), f"ran {runs}, the flat orders of this update (nested updates included) are {lab['flat']}"
     if extra_ok and len(set(runs)) == len(runs) and set(trig) <= set(runs):
         runs = list(runs)
     elif sorted(runs) != sorted(trig):
